@@ -559,7 +559,15 @@ func (e *Engine) ruleL4(rule string, r *lockResult) {
 		// would report a self-deadlock): the call is a critical section of its own, so the method reads in one and writes
 		// in another – check-then-act with a window in between. (The batch methods take no lock themselves: they are
 		// compositions of atomic calls by design and are not judged here.)
-		if bad == "" {
+		// (a method whose own critical section only reads a switch or a configured value – an inlined locked getter – is
+		// not an operation on tables and is not judged)
+		operatesOnTables := false
+		for _, a := range r.accesses {
+			if a.fn == f && a.state == lsHeld && (a.what == "field:tables" || strings.HasPrefix(a.what, "tablefield:") || strings.HasPrefix(a.what, "core:")) {
+				operatesOnTables = true
+			}
+		}
+		if bad == "" && operatesOnTables {
 			instrs(f, func(in ssa.Instruction) {
 				c, ok := in.(ssa.CallInstruction)
 				if !ok || bad != "" || isBuiltin(c) {
